@@ -219,3 +219,56 @@ contract(U + "BlockBase.tofortran",
     serves=["C01", "C02", "C10", "C11"],
     note="content holds nodes only (start is not None: blocks are built by BlockBase.match, which appends matched nodes)",
 )
+
+# --- rule dispatch on a reader: block rules (match(reader) returns the content) and pure alternatives ----------------
+# The rule-call protocol G3 (proto:rule_call) is *assumed* wherever a rule is called on a reader.  Here it is proved for
+# the dispatch code itself: given that (a) the class's own match(reader) keeps the block protocol (the postcondition
+# proved for BlockBase.match: None restores the reader, a tuple accounts for every consumed item by a node of its
+# content) and (b) every alternative called keeps G3, the call as a whole keeps G3.  With Base.__new__@stmt (statement
+# rules) this makes G3 an induction over the depth of rule calls; what stays assumed is listed in the note.
+contract("proto:block_match", trusted=True,
+    types=dict(reader="FortranReaderBase"), returns="tuple[list[ref:Base]]?",
+    modifies=["view", "*.fifo_item", "*.linecount", "*.filo_line", "*.source_lines", "*.isclosed", "*._children"],
+    ensures={
+        "restore": "implies(result is None, view == old(view))",
+        "order": "implies(result is not None, old(view) == cons(result[0]) + view)",
+        "reader_lines_consistent": "implies(old(0 <= reader.linecount and reader.linecount + len(reader.filo_line) == len(reader.source_lines)), 0 <= reader.linecount and reader.linecount + len(reader.filo_line) == len(reader.source_lines))",
+        "reader_lines_kept": "implies(old(len(reader.source_lines) > 0 and 0 <= reader.linecount and reader.linecount + len(reader.filo_line) == len(reader.source_lines)), len(reader.source_lines) > 0 and 0 <= reader.linecount and reader.linecount + len(reader.filo_line) == len(reader.source_lines))",
+    },
+    raises={"NoMatchError": {"restores": "view == old(view)", "reader_lines_consistent": "implies(old(0 <= reader.linecount and reader.linecount + len(reader.filo_line) == len(reader.source_lines)), 0 <= reader.linecount and reader.linecount + len(reader.filo_line) == len(reader.source_lines))"},
+            "*!NoMatchError!StopIteration": {}},
+    note="cls.match(reader) of a block rule: the clauses 'restore' and 'order' proved for BlockBase.match, to which the block rules delegate")
+
+contract("proto:set_parent_nested", trusted=True,
+    types=dict(parent_node="ref:Base", items="any"), modifies=["*.parent"], ensures={}, raises=[],
+    note="_set_parent on a match result (tuple of lists): only parent links change (the flat case is proved as _set_parent@flat)")
+
+contract(U + "Base.__new__@rule",
+    types=dict(cls="cls", string="FortranReaderBase", parent_cls="any", _deepcopy="bool"),
+    returns="ref:Base?",
+    locals=dict(result="tuple[list[ref:Base]]?"),
+    requires={"block_rule_or_alternatives": "not cls_has(cls, 'match') or cls_issub(cls, 'BlockBase')", "no_copy": "not _deepcopy",
+              "block_rules_have_init": "implies(cls_has(cls, 'match'), hasattr(cls, 'init'))",
+              # every physical line drawn so far is cached and counted (proved for get_single_line / put_single_line)
+              "reader_lines_consistent": "0 <= string.linecount and string.linecount + len(string.filo_line) == len(string.source_lines)"},
+    modifies=["view", "*.fifo_item", "*.linecount", "*.filo_line", "*.source_lines", "*.isclosed", "*._children",
+              "*.string", "*.item", "*.parent", "*.content"],
+    calls={"cls.match": "proto:block_match", "_set_parent": "proto:set_parent_nested", "obj.init": U + "BlockBase.init",
+           "subcls": "proto:rule_call", "Base.subclasses.get": "pure:list[cls]", "parent_cls.append": "ignore",
+           "freader.is_comment_line": "pure:bool"},
+    ensures={
+        "no_match_restores": "implies(result is None, view == old(view))",
+        "reader_lines_consistent": "0 <= string.linecount and string.linecount + len(string.filo_line) == len(string.source_lines)",
+    },
+    ensures_local={
+        # a node built from the block's own match accounts for the consumed items by its content ...
+        "block_node_accounts_for_its_items@ret4": "obj is not None and not was_allocated(obj) and old(view) == cons(obj.content) + view",
+        # ... a node handed up from an alternative is that alternative's node (G3 of the callee), every earlier alternative having restored the reader
+        "first_matching_alternative_is_returned@ret6": "obj is not None and old(view) == consumed(obj) + view",
+    },
+    raises={"NoMatchError": {"restores": "view == old(view)", "reader_lines_consistent": "0 <= string.linecount and string.linecount + len(string.filo_line) == len(string.source_lines)"}, "*!NoMatchError!StopIteration": {}},
+    loops={0: dict(invariant={"alternatives_so_far_restored": "view == old(view)", "reader_lines_consistent": "0 <= string.linecount and string.linecount + len(string.filo_line) == len(string.source_lines)"}, types={"subcls": "cls"})},
+    serves=["C08", "C11", "C12"],
+    note="assumed: block rules' match(reader) delegate to BlockBase.match (enumerated by checks/enum_block_table.py); consumed(n) of a block node n is "
+         "cons(n.content) (BlockBase.restore_reader, proved, puts back exactly that); len(consumed(n)) > 0; no StopIteration from a rule",
+)
